@@ -533,6 +533,30 @@ def run(prop, tier):
         states += lt.distinct
         transitions += lt.generated
         extra_notes.append("real Listener with the PROXY protocol: %d arrival histories, cookie address judged by Trace_Listener" % len(lobs))
+    if prop == "C04":
+        # "never panics", one level up: the listener's connection tasks under every kind of PROXY header (valid, address-less, invalid,
+        # garbage, in two segments) and every kind of client -- the harness counts panics of those tasks (Trace_Listener!L_NoPanicInConnectionTasks)
+        import listener_check
+        lwd = os.path.join(wd, "lst")
+        os.makedirs(lwd, exist_ok=True)
+        lscs, _ = listener_check.scenarios("C15", "quick", seed, lwd)
+        linp, loutp = os.path.join(lwd, "in.ndjson"), os.path.join(lwd, "obs.ndjson")
+        vlib.write_ndjson(linp, lscs)
+        vlib.run_bin(hx, ["listener", "--report-panics", "--in", linp, "--out", loutp, "--parallel", "8"], timeout=900)
+        lobs = vlib.read_ndjson(loutp)
+        if len(lobs) not in (len(lscs), len(lscs) + 1) or any("harnessError" in o for o in lobs):
+            raise vlib.ToolError("listener harness did not produce a record for every history: %s" % json.dumps(lobs)[:600])
+        lt = vlib.run_tlc("Trace_Listener", "Trace_Listener.cfg", lwd, workers=1, timeout=600, markers=("FAIL", "NOTCONSUMED"),
+                          env_extra={"TRACE": loutp, "PROP": "C04"}, java_opts=["-Xss1g", "-Dtlc2.tool.queue.IStateQueue=StateDeque"])
+        if not lt.ok or lt.marked["NOTCONSUMED"] or lt.distinct != len(lobs) + 1:
+            raise vlib.ToolError("Trace_Listener did not consume all %d records:\n%s" % (len(lobs), lt.output[-2000:]))
+        for f in lt.marked["FAIL"]:
+            o = lobs[f["line"] - 1]
+            rep.violation("C04 C04_NoPanic [listener: %s connection task(s) panicked while %d arrival histories with every kind of PROXY header were served]" % (o.get("count"), len(lscs)),
+                          {"failing_clauses": sorted(f["clauses"]), "observed": o, "seed": seed})
+        states += lt.distinct
+        transitions += lt.generated
+        extra_notes.append("real Listener with the PROXY protocol: %d arrival histories, panics of connection tasks counted" % len(lscs))
     if prop == "C01":
         # the shipped authentication adapter itself: MojangAdapter against a loopback session server (hook PASSAGE_VERIF_SESSION_SERVER);
         # an identity is reported as vouched for only if the answer carried it (Trace_SessionUrl, clause C01_IdentityOnlyFromReply)
